@@ -789,8 +789,10 @@ def oracle(run, corr, deep):
             t = ans.split()
             if 0 <= case["len"] < 256 and case["have"] >= case["len"] and (not t or not t[0].startswith("s:1:1")):
                 rep("host-send-refused", line, ans, "a message of %d octets (shorter than the phone's receive buffer) was not queued" % case["len"])
-            if "CRASH" in t and 0 <= case["len"] <= case["have"]:
-                rep("crash", line, ans, "sanitizer report / abort on a message of %d octets" % case["len"])
+            died = [x for x in t if x in ("CRASH", "ABORT", "ASSERT") or x.startswith("EXIT")]
+            if died and 0 <= case["len"] <= case["have"]:
+                rep("crash", line, ans, "hdlc_send_to_phone with %d octets of data: the process %s" % (
+                    case["len"], {"ABORT": "reached MSGB_ABORT (osmo_panic)", "CRASH": "died (sanitizer report / signal)"}.get(died[0], "stopped: " + died[0])))
     corr.distribution["oracle (msgb part): cases judged on the real code"] = judged
     return found
 
